@@ -594,6 +594,59 @@ def run(ctx) -> None:
     ctx.functions_analysed |= sub_ctx.functions_analysed
     ctx.floor("C07.R13-stored-description-is-never-absent", n13, 3, "write-discipline obligations of the two conf/ writers re-used from the C14 analysis")
 
+    # ---------------- R14 (obligation): the scope a stored component's variables are resolved in is layered like the live one ----------
+    # instance() resolves a component's own variables before it stores them; the lookup table is global scope, then the stage's, then
+    # the component's own (what the live resolution does).  Built the other way round a variable that the stage (e.g. the user's
+    # variable file, patched into the stage scope) overrides is stored with the global value (seed C07-14).
+    inst14 = ctx.repo.module("python/experiment/model/frontends/flowir.py").func("FlowIRConcrete.instance")
+    n14 = 0
+    for lp in [x for x in source.walk_own(inst14) if isinstance(x, ast.For) and isinstance(x.target, ast.Name)]:
+        item = lp.target.id
+        ctx_names = {k.value.id for c in ast.walk(lp) if isinstance(c, ast.Call) and last_attr(c) in ("fill_in", "interpolate")
+                     for k in c.keywords if k.arg == "context" and isinstance(k.value, ast.Name)}
+        if not ctx_names:
+            continue
+        derived = {item} | {t.id for st in ast.walk(lp) if isinstance(st, ast.Assign) for t in st.targets if isinstance(t, ast.Name)
+                            and any(isinstance(y, ast.Name) and y.id == item for y in ast.walk(st.value))}
+
+        def layers(e: ast.AST):
+            if isinstance(e, ast.Call) and last_attr(e) in ("copy", "deepcopy", "deep_copy") and isinstance(e.func, ast.Attribute) and not e.args:
+                return [e.func.value]
+            if isinstance(e, ast.Call) and call_name(e) in ("dict", "copy.copy", "copy.deepcopy", "deep_copy") and e.args:
+                return layers(e.args[0]) + [k.value for k in e.keywords if k.arg is None]
+            if isinstance(e, ast.Dict) and e.keys and all(k is None for k in e.keys):
+                return [v for v in e.values]
+            return [e]
+
+        def kind(e: ast.AST) -> str:
+            if any(isinstance(y, ast.Name) and y.id in derived for y in ast.walk(e)):
+                return "component"
+            if isinstance(e, ast.Subscript) and isinstance(e.slice, ast.Name):
+                return "stage"
+            if isinstance(e, ast.Name):
+                return "global"
+            return "?"
+        for cn in sorted(ctx_names):
+            seq = []
+            for st in sorted([x for x in ast.walk(lp) if isinstance(x, (ast.Assign, ast.Expr))], key=lambda x: (x.lineno, x.col_offset)):
+                if isinstance(st, ast.Assign) and any(isinstance(t, ast.Name) and t.id == cn for t in st.targets):
+                    seq = [l_ for l_ in layers(st.value)]
+                elif isinstance(st, ast.Expr) and isinstance(st.value, ast.Call) and last_attr(st.value) == "update" \
+                        and isinstance(st.value.func.value, ast.Name) and st.value.func.value.id == cn and st.value.args:
+                    seq += layers(st.value.args[0])
+            kinds = [kind(e) for e in seq]
+            if "component" not in kinds or "stage" not in kinds:
+                continue            # not the per-component scope
+            n14 += 1
+            ok = kinds == ["global", "stage", "component"]
+            ctx.ob("C07.R14-flattened-components-keep-their-own-layers", lp, ok,
+                   "the scope a stored component's variables are resolved in is global, then stage, then the component's own" if ok else
+                   "instance() resolves the variables it stores for a component in a scope layered %s (%s): a variable that the stage scope - the "
+                   "user's variable file is patched in there - overrides is stored with the GLOBAL value, the reloaded instance resolves "
+                   "'%%(N)s/y' to 'a/y' where the live experiment has 'b/y'" % (kinds, ", ".join(short(e, 30) for e in seq)),
+                   construct="instance(): per-component scope = global < stage < component")
+    ctx.require(n14 >= 1, "anchor missing: the per-component substitution scope of FlowIRConcrete.instance")
+
     # ---------------- R15: the flattened environments keep the default platform's layer ----------------
     # instance() folds the selected platform into 'default' and the reload reads 'default' only: what the writer resolved for an
     # environment (platform over default, variable by variable) must be what is stored.  The obligation is C17.R3's (seed C07-13).
